@@ -215,10 +215,128 @@ def _nt(case):
     return bool(case.get("cut")) or len(case["dag"]["funcs"]) >= 2
 
 
+# ---- the same for pipelines with MapSpecs: an intermediate *array* is supplied --------------------------------------------
+def _map_cut_cases(tier, rng):
+    n = 150 if tier == "quick" else 1500
+    q = 0
+    tries = 0
+    while q < n and tries < 50 * n:
+        tries += 1
+        prog = progs.gen_map_program(rng, n_funcs=rng.randint(2, 3), allow_generator=False, allow_none=False)
+        produced = {o: f for f in prog["funcs"] for o in f["outputs"]}
+        consumed = [o for o in produced if any(o in g["params"] for g in prog["funcs"]) and produced[o].get("spec")]
+        if not consumed:
+            continue
+        cut = rng.choice(consumed)
+        q += 1
+        yield {"prog": prog, "cut": cut, "entry": rng.choice(("map-output_names", "map-auto_subpipeline", "subpipeline")),
+               "default": rng.choice((None, "longer", "shorter")), "seed": rng.randrange(10**6)}
+
+
+def _obj_array(nested):
+    import numpy as np
+    shape = progs._shape_of(nested)
+    arr = np.empty(shape, dtype=object)
+    import itertools
+    for idx in itertools.product(*[range(d) for d in shape]):
+        arr[idx] = progs._get(nested, idx)
+    return arr
+
+
+def _check_map_cut(case):
+    import copy
+    prog = copy.deepcopy(case["prog"])
+    cut = case["cut"]
+    want, calls = progs.denote(prog)
+    funcs = prog["funcs"]
+    produced = {o: f for f in funcs for o in f["outputs"]}
+    # outputs strictly downstream of the cut, and the functions needed for them once `cut` is supplied
+    down = set()
+    changed = True
+    while changed:
+        changed = False
+        for f in funcs:
+            if any(p == cut or p in down for p in f["params"]) and not set(f["outputs"]) <= down:
+                down |= set(f["outputs"])
+                changed = True
+    down -= set(produced[cut]["outputs"])
+    if not down:
+        return []
+    S = sorted(down)
+    needed, todo, roots = set(), list(S), set()
+    while todo:
+        o = todo.pop()
+        if o == cut:
+            continue
+        if o in produced:
+            f = produced[o]
+            if f["name"] in needed:
+                continue
+            needed.add(f["name"])
+            todo += [p for p in f["params"] if p not in f.get("bound", {})]
+        else:
+            roots.add(o)
+    if any(o in produced[cut]["outputs"] and o != cut for f in funcs if f["name"] in needed for o in f["params"]):
+        return []  # a sibling output of the cut function is needed too: the cut does not cut its producer off
+    if isinstance(want[cut], list) and progs._shape_of(want[cut]) == ():
+        return []
+    # an array default for the supplied intermediate on one of its consumers, of another length than the supplied array
+    if case["default"] and isinstance(want[cut], list) and len(progs._shape_of(want[cut])) == 1:
+        k = len(want[cut]) + (1 if case["default"] == "longer" else -1)
+        if k >= 1:
+            for f in funcs:
+                if cut in f["params"] and f["name"] in needed:
+                    f.setdefault("defaults", {})[cut] = [f"dflt{j}" for j in range(k)]
+    p = progs.build_pipeline(prog)
+    inputs = {n: v for n, v in progs.real_inputs(prog).items() if n in roots}
+    inputs[cut] = _obj_array(want[cut]) if isinstance(want[cut], list) else want[cut]
+    mk = progs.map_kwargs(prog)
+    if "internal_shapes" in mk:
+        keep = {o: v for o, v in mk["internal_shapes"].items() if produced[o]["name"] in needed}
+        mk = {"internal_shapes": keep} if keep else {}
+    log: list = []
+    progs.set_log(log)
+    bad = []
+    try:
+        try:
+            if case["entry"] == "subpipeline":
+                sp = p.subpipeline(inputs=set(inputs), output_names=set(S))
+                res = sp.map(inputs, parallel=False, storage="dict", **mk)
+            else:
+                extra = {"auto_subpipeline": True} if case["entry"] == "map-auto_subpipeline" else {}
+                res = p.map(inputs, output_names=set(S), parallel=False, storage="dict", **mk, **extra)
+        except Exception as e:  # noqa: BLE001
+            return [f"{case['entry']}(outputs={S}, supplied={cut}) refused a computable request: {type(e).__name__}: {str(e)[:160]}"]
+    finally:
+        progs.set_log(None)
+    for o in S:
+        if o not in res:
+            bad.append(f"result lacks {o}")
+            continue
+        got = progs.to_nested(res[o].output)
+        if got != want[o]:
+            bad.append(f"{o} with {cut} supplied: got {str(got)[:140]} want {str(want[o])[:140]}")
+    ran = {fn for fn, _ in log}
+    if ran != needed:
+        bad.append(f"functions invoked {sorted(ran)}, exactly {sorted(needed)} lie between the supplied array and {S}")
+    expected_calls = sorted(c for c in calls if c[0] in needed)
+    if not bad and sorted(log) != expected_calls:
+        bad.append(f"{len(log)} calls, the reference makes {len(expected_calls)} for these functions")
+    return bad[:5]
+
+
 def bounded_checks():
     return [
         ("select-outputs", Check("select-outputs", _cases, _check, RULE, nontrivial=_nt, shards=10)),
         ("select-outputs-reject", Check("select-outputs-reject", _reject_cases, _check_reject,
                                         "a request whose mandatory root argument is missing is rejected with an error "
                                         "naming it, before any user call", nontrivial=_nt, shards=2)),
+        ("select-outputs-map", Check("select-outputs-map", _map_cut_cases, _check_map_cut,
+                                     "map programs x a supplied intermediate array (optionally with an array default of "
+                                     "another length on a consumer) x {map(output_names), auto_subpipeline, subpipeline}: "
+                                     "values of the reference denotation, exactly the functions below the cut run",
+                                     describe=lambda c: {"program": progs.describe(c["prog"]), "cut": c["cut"],
+                                                         "entry": c["entry"], "default": c["default"]},
+                                     key=lambda c: repr((progs.describe(c["prog"]), c["cut"], c["entry"], c["default"])),
+                                     shards=4)),
     ]
